@@ -23,7 +23,7 @@
     to binary64: correctly rounded, not modelled here).
     Definitions only; proofs are in Proofs/NumFmtProofs.v. *)
 From Coq Require Import List ZArith NArith QArith Bool.
-From RG Require Import Base.Str Base.Dec.
+From RG Require Import Base.Str Base.Dec Base.Num.
 Import ListNotations.
 Open Scope N_scope.
 
@@ -149,4 +149,23 @@ Definition dec_Q (x : str) : option Q :=
   match dec_value x with
   | Some (m, k) => Some (Z.of_N m # pow10pos k)
   | None => None
+  end.
+
+(** Correspondence check: [number_parser.number(x)] returned [out]
+    ([None] = ZeroDivisionError).  An int must be the same int; a Fraction the
+    same reduced Fraction; a float must be the correctly rounded binary64
+    value ([b64]) of the exact decimal the model read.  Only texts inside the
+    modelled syntax are submitted. *)
+Definition check_parse (x : str) (out : option num) : bool :=
+  match parse_number x, out with
+  | PInt n, Some (NInt z) => (Z.of_N n =? z)%Z
+  | PFrac i n (Npos d), Some r =>
+      num_same (mk_frac (Z.of_N i * Zpos d + Z.of_N n)%Z d) r
+  | PDec m k, Some r =>
+      match b64 (Z.of_N m) (pow10pos k) with
+      | Some f => num_same f r
+      | None => false
+      end
+  | PZeroDiv, None => true
+  | _, _ => false
   end.
